@@ -8,6 +8,7 @@
     D24  `Row.can_fit`: an origin-spanning area is tested against every area of the row
     D30  `adjust_cross_origin_area`: only protoclusters take the core branches
     D31  `adjust_cross_origin_area`: the side of the core is `core_start >= feature.start`
+    D70-C19  `Area.crosses_origin`: `>=` (an area `[s, L) + [0, s)` tiling the record)
   Mutation through `self`/closures becomes returned values; `ValueError`/`assert` become `none`.
   No imports outside ASV.Model (driver-linkable).
 -/
@@ -127,8 +128,9 @@ structure Area where
   tool : String := ""
 deriving DecidableEq, Repr, Inhabited
 
-/-- `Area.crosses_origin` -/
-def Area.crossesOrigin (a : Area) : Bool := decide (a.nstart > a.nend)
+/-- `Area.crosses_origin` (with fixes/D70-C19: `>=`, an area covering the whole record from a
+    position back to itself has equal coordinates) -/
+def Area.crossesOrigin (a : Area) : Bool := decide (a.nstart ≥ a.nend)
 
 /-- `Area.offset` -/
 def Area.offset (a : Area) (d : Int) : Area :=
